@@ -278,34 +278,47 @@ def check_experiment(ctx, rng):
     from platypus import NSGAII, GeneticAlgorithm, experiment, DTLZ2, ZDT1
     from concurrent.futures import ThreadPoolExecutor
     from multiprocessing.pool import ThreadPool
+    all_algos = [(NSGAII, {"population_size": 4}, "A4", 4), (NSGAII, {"population_size": 6}, "A6", 6), (NSGAII, {"population_size": 8}, "A8", 8)]
+    all_probs = [(lambda: DTLZ2(2), "P2", 2), (lambda: DTLZ2(3), "P3", 3), (lambda: DTLZ2(4), "P4", 4)]
+    # every shape of the algorithm x problem grid: several algorithms on one problem, one algorithm on several problems, a full grid
+    shapes = [(2, 2, 3), (3, 1, 2), (1, 3, 2), (2, 1, 1), (1, 1, 3), (3, 3, 1)]
     for evname in ("default", "thread", "pool"):
-        ex = ThreadPoolExecutor(3) if evname == "thread" else None
-        tp = ThreadPool(3) if evname == "pool" else None
-        ev = E.SubmitEvaluator(ex.submit) if ex else (E.PoolEvaluator(tp) if tp else None)
-        algos = [(NSGAII, {"population_size": 4}, "A4"), (NSGAII, {"population_size": 6}, "A6")]
-        probs = [(DTLZ2(2), "P2"), (DTLZ2(3), "P3")]
-        import random as _r
-        _r.seed(ctx.seed)
-        res = call(platypus.experiment, algos, probs, seeds=3, nfe=12, evaluator=ev)
-        if ex:
-            ex.shutdown()
-        if tp:
-            tp.terminate()
-        inp = {"evaluator": evname}
-        if isinstance(res, str):
-            ctx.fail("experiment-raises", inp, res, "results", "experimenter.experiment")
-            continue
-        for a, size in (("A4", 4), ("A6", 6)):
-            for pn, nobjs in (("P2", 2), ("P3", 3)):
-                entries = res.get(a, {}).get(pn)
-                if entries is None or len(entries) != 3:
-                    ctx.fail("experiment-entries", dict(inp, algorithm=a, problem=pn), None if entries is None else len(entries), 3, "experimenter.experiment")
+        for (na, npb, nseeds) in shapes:
+            ex = ThreadPoolExecutor(3) if evname == "thread" else None
+            tp = ThreadPool(3) if evname == "pool" else None
+            ev = E.SubmitEvaluator(ex.submit) if ex else (E.PoolEvaluator(tp) if tp else None)
+            algos_ = rng.sample(all_algos, na)
+            probs_ = rng.sample(all_probs, npb)
+            algos = [(c, kw, nm) for c, kw, nm, _ in algos_]
+            probs = [(mk(), nm) for mk, nm, _ in probs_]
+            import random as _r
+            _r.seed(ctx.seed)
+            res = call(platypus.experiment, algos, probs, seeds=nseeds, nfe=12, evaluator=ev)
+            if ex:
+                ex.shutdown()
+            if tp:
+                tp.terminate()
+            inp = {"evaluator": evname, "algorithms": [a[2] for a in algos], "problems": [q[1] for q in probs], "seeds": nseeds}
+            if isinstance(res, str):
+                ctx.fail("experiment-raises", inp, res, "results", "experimenter.experiment")
+                continue
+            if sorted(res.keys()) != sorted(a[2] for a in algos):
+                ctx.fail("experiment-entries", inp, sorted(res.keys()), sorted(a[2] for a in algos), "experimenter.experiment")
+                continue
+            for _, _, a, size in algos_:
+                if sorted(res[a].keys()) != sorted(q[1] for q in probs):
+                    ctx.fail("experiment-entries", dict(inp, algorithm=a), sorted(res[a].keys()), sorted(q[1] for q in probs), "experimenter.experiment")
                     continue
-                for r in entries:
-                    if len(r) != size or any(s.problem.nobjs != nobjs for s in r):
-                        ctx.fail("experiment-result-filed-under-wrong-key", dict(inp, algorithm=a, problem=pn), [len(r), r[0].problem.nobjs], [size, nobjs], "experimenter.experiment")
-                        break
-        ctx.case(("experiment", evname), True)
+                for _, pn, nobjs in probs_:
+                    entries = res.get(a, {}).get(pn)
+                    if entries is None or len(entries) != nseeds:
+                        ctx.fail("experiment-entries", dict(inp, algorithm=a, problem=pn), None if entries is None else len(entries), nseeds, "experimenter.experiment")
+                        continue
+                    for r in entries:
+                        if len(r) != size or any(s.problem.nobjs != nobjs for s in r):
+                            ctx.fail("experiment-result-filed-under-wrong-key", dict(inp, algorithm=a, problem=pn), [len(r), r[0].problem.nobjs], [size, nobjs], "experimenter.experiment")
+                            break
+            ctx.case(("experiment", evname, na, npb, nseeds), na * npb * nseeds > 1)
 
 
 def run(ctx, drv):
